@@ -27,6 +27,19 @@ type c02Sharer struct {
 // BOUND: G in {1,2,3}; device memory T = 1000 MiB (quick) / {1000, 100, 16000} (thorough); 0..2 existing sharers over <= 2 groups with SYMBOLIC memory requests in [1, 2^20); one whole-GPU pod; the new request's memory from the boundary menu {1, 0.3T, T/2, T/2+1, T, T+1, 2T} with 1..2 devices; the new pod's cpu request regular (100m) or below the best-effort threshold (0)
 // ASSUME: pre-state reachable: per group the occupying sharers fit the device, groups + whole GPUs <= G; the existing sharers' derived fractional portions (dead for this property: only the queue charge uses them) are havoc'ed
 func VerifC02_SharedGpuMemory() {
+	c02SharedGpuMemory("C02")
+}
+
+// VerifC01_SharedGpuDevices: the same placement seen from the node: devices opened for sharing plus
+// whole GPUs in use never exceed the node's GPUs, and a request that needs a terminating sharer's
+// memory or device is only nominated (also for pods below the best-effort cpu threshold).
+// BOUND: as VerifC02_SharedGpuMemory
+// ASSUME: as VerifC02_SharedGpuMemory
+func VerifC01_SharedGpuDevices() {
+	c02SharedGpuMemory("C01")
+}
+
+func c02SharedGpuMemory(prop string) {
 	vr.OpaqueNonlinear(true)
 	vm := resource_info.NewResourceVectorMap()
 	G := vr.Choose("gpus", 3) + 1
@@ -123,27 +136,27 @@ func VerifC02_SharedGpuMemory() {
 	vr.Observe("status", nt.Status.String())
 	vr.Observe("groups", len(nt.GPUGroups))
 	// N distinct devices
-	vr.Assert(int64(len(nt.GPUGroups)) == devices, "C02.one-group-per-requested-device")
+	vr.Assert(int64(len(nt.GPUGroups)) == devices, prop+".one-group-per-requested-device")
 	if len(nt.GPUGroups) == 2 {
-		vr.Assert(nt.GPUGroups[0] != nt.GPUGroups[1], "C02.multi-fraction-devices-distinct")
+		vr.Assert(nt.GPUGroups[0] != nt.GPUGroups[1], prop+".multi-fraction-devices-distinct")
 	}
 	sharers = append(sharers, &c02Sharer{t: nt, mem: m, groups: nt.GPUGroups})
 	wasAllocated := nt.Status == pod_status.Allocated
 	if wasAllocated {
 		// bound now: every group it joined must have room among the *occupying* sharers (incl. terminating ones)
 		for _, g := range nt.GPUGroups {
-			vr.Assert(occ(g) <= T, "C02.group-memory-not-oversubscribed")
+			vr.Assert(occ(g) <= T, prop+".group-memory-not-oversubscribed")
 		}
-		vr.Assert(groupsUsed()+whole <= G, "C02.shared-plus-whole-devices-within-gpu-count")
+		vr.Assert(groupsUsed()+whole <= G, prop+".shared-plus-whole-devices-within-gpu-count")
 	} else {
-		vr.Assert(nt.Status == pod_status.Pipelined, "C02.placed-is-allocated-or-pipelined")
+		vr.Assert(nt.Status == pod_status.Pipelined, prop+".placed-is-allocated-or-pipelined")
 	}
 	if stmt.Commit() != nil {
 		vr.Stop()
 	}
 	if !wasAllocated {
-		vr.Assert(len(ch.binds) == 0, "C02.no-bind-for-nominated")
+		vr.Assert(len(ch.binds) == 0, prop+".no-bind-for-nominated")
 	}
 	// a Bind reaches the cluster only for a task that was allocated (never for a nominated one)
-	vr.Assert(len(ch.binds) == 0 || len(ch.pipelines) == 0, "C02.bind-xor-nomination")
+	vr.Assert(len(ch.binds) == 0 || len(ch.pipelines) == 0, prop+".bind-xor-nomination")
 }
